@@ -29,6 +29,7 @@ type Script struct {
 	sorts     *Sorts
 	strLits   map[string]string // literal -> const name
 	strLitOrd []string
+	taint     bool
 }
 
 func newScript(s *Sorts) *Script {
@@ -107,6 +108,9 @@ func (s *Script) strLit(v string) string {
 	s.strLitOrd = append(s.strLitOrd, v)
 	s.add(fmt.Sprintf("(declare-fun %s () %s)", name, sStr))
 	s.assertFor(name, fmt.Sprintf("(= (hv_strlen %s) %d)", name, len(v)))
+	if s.taint {
+		s.assertFor(name, fmt.Sprintf("(sf_clean %s)", name)) // program text is not value content
+	}
 	// bytes of short literals (enough for keyword / escape tables)
 	if len(v) <= 16 {
 		for i := 0; i < len(v); i++ {
